@@ -266,6 +266,29 @@ def execute(p, res):
         else:
             continue
         break
+    # the same batches presented as non-contiguous views (transposed storage, strided slice of a wider tensor, stride-0 expansion of one member):
+    # values are a function of the logical content only
+    if not is_2d_member:
+        views = 0
+        for sel in list(product(range(len(pool)), repeat=2)) + [(i, (i + 1) % len(pool), (i + 2) % len(pool)) for i in range(len(pool))]:
+            Xc = torch.stack([pool[i] for i in sel])
+            wide = torch.stack([Xc, torch.flip(Xc, [0, 1])], dim=2).reshape(len(sel), -1)
+            forms = {"transposed": Xc.t().contiguous().t(), "strided": wide[:, ::2]}
+            if len(set(sel)) == 1:
+                forms["expanded"] = pool[sel[0]].unsqueeze(0).expand(len(sel), -1)
+            for vname, Xv in forms.items():
+                assert torch.equal(Xv, Xc) and (not Xv.is_contiguous() or Xv.shape[1] == 1), vname
+                try:
+                    Y = call(Xv)
+                except Exception:  # noqa: BLE001
+                    res.rejected += 1          # declining a memory layout is allowed; answering it with other values is not
+                    continue
+                views += 1
+                res.ev(1, nontrivial=1, transitions=0)
+                if Y.shape[0] != len(sel) or any(not same(Y[j], ref[i], exact, tol) for j, i in enumerate(sel)):
+                    v(vname, "batch=stack", f"members {sel} as a {vname} view (strides {tuple(Xv.stride())}): output differs from the members processed alone", {"sel": list(sel)})
+                    break
+        res.bump("view_presentations", views)
     # (B1,B2,n): agree or raise (constraints are excluded: their item is everything behind the first dimension by definition)
     if not is_2d_member and kind != "constraint":
         for sel in list(product(range(len(pool)), repeat=4))[::7]:
